@@ -285,6 +285,9 @@ pub fn wellformed(j: &J) -> Wf {
     match refparse(j) {
         Ok((s, env)) => {
             if let Some(bad) = bad_default(&s, &env) {
+                if bad.starts_with("UNCLEAR") {
+                    return Wf::Unclear(bad);
+                }
                 return Wf::No(bad);
             }
             Wf::Yes
@@ -315,9 +318,10 @@ fn bad_default(s: &crate::ast::S, env: &crate::ast::Env) -> Option<String> {
                             _ => default_value(d, &f.ty, env).map(|_| ()),
                         };
                         if let Err(e) = res {
-                            if !e.contains("outside the model") {
-                                return Some(format!("default of field {} does not conform: {e}", f.name));
+                            if e.contains("outside the model") {
+                                return Some(format!("UNCLEAR: default of field {}: {e}", f.name));
                             }
+                            return Some(format!("default of field {} does not conform: {e}", f.name));
                         }
                     }
                     if let Some(b) = walk(&f.ty, env, seen) {
